@@ -19,12 +19,16 @@ for cj in sorted(glob.glob(src+'/confirm/*.json')):
     mdir='%s/%s/%s'%(src,ID,k)
     sid='%s-%s-%s'%(ID,prefix,k)
     dst='/verif/seeded/'+sid
+    only=[a for a in sys.argv if a.startswith('--only=')]
+    if only and sid not in only[0][7:].split(','): continue
     if os.path.exists(dst+'/meta.json') and '--redo' not in sys.argv: 
         continue
     wt='%s/%s'%(wtroot,ID)
     sh('git checkout -q -- . ; git clean -fdq; git checkout -q --detach '+head,cwd=wt)
-    rc,_=sh('git apply '+mdir+'/patch.diff',cwd=wt)
+    pf=mdir+'/patch_head.diff' if os.path.exists(mdir+'/patch_head.diff') else mdir+'/patch.diff'
+    rc,_=sh('git apply '+pf,cwd=wt)
     det={'applies_at_head':rc==0}
+    if pf.endswith('patch_head.diff'): det['rebased']='patch.diff was written against an earlier commit; patch_head.diff is the same slip re-applied by hand to the current code (the lines were since changed by a fix: commit) and re-confirmed (demo fails with it, passes without, suite ok)'
     if rc==0:
         rc2,out=sh('FQ_REPO=%s VERIF_DIR=/tmp/vd /verif/bin/fqverif -property %s -tier quick'%(wt,ID))
         viol=[l.strip() for l in out.splitlines() if l.startswith('  VIOLATION') or l.startswith('  UNDECIDED')]
@@ -38,6 +42,7 @@ for cj in sorted(glob.glob(src+'/confirm/*.json')):
     sh('git checkout -q -- . ; git clean -fdq',cwd=wt)
     os.makedirs(dst,exist_ok=True)
     shutil.copy(mdir+'/patch.diff',dst+'/patch.diff')
+    if os.path.exists(mdir+'/patch_head.diff'): shutil.copy(mdir+'/patch_head.diff',dst+'/patch_head.diff')
     if os.path.exists(dst+'/demo'): shutil.rmtree(dst+'/demo')
     shutil.copytree(mdir+'/demo',dst+'/demo')
     m=json.load(open(mdir+'/meta.json'))
